@@ -1407,6 +1407,11 @@ impl HashColumn {
 						log::warn!( target: "parity-db", "Index {} is too old. Current is {}", record.table, tables.index.id);
 						return Err(Error::Corruption("Unexpected log index id".to_string()))
 					}
+					if record.table.index_bits() >= 64 - MIN_INDEX_BITS {
+						// Not an index size this database can ever reach (the log overlay has no slot
+						// for it): the id byte is damaged.
+						return Err(Error::Corruption("Unexpected log index id".to_string()))
+					}
 					// Re-launch previously started reindex
 					// TODO: add explicit log records for reindexing events.
 					log::warn!(
@@ -1439,6 +1444,10 @@ impl HashColumn {
 					if record.table.index_bits() < tables.get_ref_count().id.index_bits() {
 						// Insertion into a previously dropped ref count.
 						log::warn!( target: "parity-db", "Ref count {} is too old. Current is {}", record.table, tables.get_ref_count().id);
+						return Err(Error::Corruption("Unexpected log ref count id".to_string()))
+					}
+					if record.table.index_bits() >= 64 - MIN_REF_COUNT_BITS {
+						// Not a ref count table size this database can ever reach.
 						return Err(Error::Corruption("Unexpected log ref count id".to_string()))
 					}
 					// Re-launch previously started reindex
